@@ -92,8 +92,19 @@ enum Node {
     P(Pipeline),
 }
 
+/// Stream configuration to be applied to the operands of the root `|`
+/// (what is left in here after `build` is applied to the result instead).
+#[derive(Default)]
+struct RootCfg {
+    stdin: Option<Redirection>,
+    stdin_data: Option<Vec<u8>>,
+    stdout: Option<Redirection>,
+    stderr_to: Option<std::fs::File>,
+    applied: bool,
+}
+
 /// Build the composition tree over stages [lo, hi) using the split choices.
-fn build(execs: &mut Vec<Option<Exec>>, lo: usize, hi: usize, splits: &[u8], pos: &mut usize, shape: &mut String, root_cfg: &mut Option<(Option<Redirection>, Option<Redirection>)>, is_root: bool) -> Node {
+fn build(execs: &mut Vec<Option<Exec>>, lo: usize, hi: usize, splits: &[u8], pos: &mut usize, shape: &mut String, root_cfg: &mut Option<RootCfg>, is_root: bool) -> Node {
     if hi - lo == 1 {
         shape.push('e');
         return Node::E(execs[lo].take().unwrap());
@@ -120,10 +131,8 @@ fn build(execs: &mut Vec<Option<Exec>>, lo: usize, hi: usize, splits: &[u8], pos
         (Node::P(a), Node::E(b)) => {
             let mut a = a;
             if is_root {
-                if let Some((i, _)) = root_cfg.as_mut() {
-                    if let Some(r) = i.take() {
-                        a = a.stdin(r);
-                    }
+                if let Some(c) = root_cfg.as_mut() {
+                    a = apply_left(a, c);
                 }
             }
             Node::P(a | b)
@@ -131,12 +140,11 @@ fn build(execs: &mut Vec<Option<Exec>>, lo: usize, hi: usize, splits: &[u8], pos
         (Node::P(a), Node::P(b)) => {
             let (mut a, mut b) = (a, b);
             if is_root {
-                if let Some((i, o)) = root_cfg.as_mut() {
-                    if let Some(r) = i.take() {
-                        a = a.stdin(r);
-                    }
-                    if let Some(r) = o.take() {
+                if let Some(c) = root_cfg.as_mut() {
+                    a = apply_left(a, c);
+                    if let Some(r) = c.stdout.take() {
                         b = b.stdout(r);
+                        c.applied = true;
                     }
                 }
             }
@@ -144,6 +152,22 @@ fn build(execs: &mut Vec<Option<Exec>>, lo: usize, hi: usize, splits: &[u8], pos
         }
         (Node::E(_), Node::P(_)) => unreachable!("split rule excludes Exec | Pipeline"),
     }
+}
+
+fn apply_left(mut a: Pipeline, c: &mut RootCfg) -> Pipeline {
+    if let Some(r) = c.stdin.take() {
+        a = a.stdin(r);
+        c.applied = true;
+    }
+    if let Some(d) = c.stdin_data.take() {
+        a = a.stdin(d);
+        c.applied = true;
+    }
+    if let Some(f) = c.stderr_to.take() {
+        a = a.stderr_to(f);
+        c.applied = true;
+    }
+    a
 }
 
 fn shape_class(shape: &str, n: usize) -> &'static str {
@@ -211,8 +235,16 @@ pub fn check_case(ctx: &Ctx, case: &PipeCase, rep: &mut CaseReport) -> CaseResul
 
     // build
     let mut shape = String::new();
-    let on_operands = case.config_on_operands && !case.use_iter && case.stdin != PIn::Data;
-    let mut root_cfg = if on_operands { Some((mk_in(case.stdin), mk_out(case.stdout))) } else { None };
+    let on_operands = case.config_on_operands && !case.use_iter;
+    let want_stderr_to = case.stderr == PErr::ToFile && !matches!(case.term, PTerm::Capture | PTerm::Communicate);
+    let full_cfg = || RootCfg {
+        stdin: mk_in(case.stdin),
+        stdin_data: if case.stdin == PIn::Data { Some(input.clone()) } else { None },
+        stdout: mk_out(case.stdout),
+        stderr_to: if want_stderr_to { Some(err_file.try_clone().unwrap()) } else { None },
+        applied: false,
+    };
+    let mut root_cfg = if on_operands { Some(full_cfg()) } else { None };
     let mut pipeline: Pipeline = if case.use_iter {
         shape.push_str("iter");
         Pipeline::from_exec_iter(execs.iter_mut().map(|e| e.take().unwrap()).collect::<Vec<_>>())
@@ -223,33 +255,20 @@ pub fn check_case(ctx: &Ctx, case: &PipeCase, rep: &mut CaseReport) -> CaseResul
             Node::E(_) => unreachable!(),
         }
     };
-    // what was requested on the operands: None left = applied there
-    let had = (on_operands && mk_in(case.stdin).is_some(), on_operands && mk_out(case.stdout).is_some());
-    let mut applied_on_operands = false;
-    match root_cfg {
-        Some((i, o)) => {
-            applied_on_operands = (had.0 && i.is_none()) || (had.1 && o.is_none());
-            if let Some(r) = i {
-                pipeline = pipeline.stdin(r);
-            }
-            if let Some(r) = o {
-                pipeline = pipeline.stdout(r);
-            }
-        }
-        None => {
-            if let Some(r) = mk_in(case.stdin) {
-                pipeline = pipeline.stdin(r);
-            }
-            if let Some(r) = mk_out(case.stdout) {
-                pipeline = pipeline.stdout(r);
-            }
-        }
+    // whatever was not applied on the operands is applied to the result
+    let mut rest = root_cfg.unwrap_or_else(full_cfg);
+    let applied_on_operands = rest.applied;
+    if let Some(r) = rest.stdin.take() {
+        pipeline = pipeline.stdin(r);
     }
-    if case.stdin == PIn::Data {
-        pipeline = pipeline.stdin(input.clone());
+    if let Some(d) = rest.stdin_data.take() {
+        pipeline = pipeline.stdin(d);
     }
-    if case.stderr == PErr::ToFile && !matches!(case.term, PTerm::Capture | PTerm::Communicate) {
-        pipeline = pipeline.stderr_to(err_file.try_clone().unwrap());
+    if let Some(r) = rest.stdout.take() {
+        pipeline = pipeline.stdout(r);
+    }
+    if let Some(f) = rest.stderr_to.take() {
+        pipeline = pipeline.stderr_to(f);
     }
 
     // classification
@@ -440,7 +459,7 @@ pub fn case_strategy() -> impl Strategy<Value = PipeCase> {
 
 fn worker(ctx: &Ctx) {
     quiet_panics();
-    let n = ctx.tier.pick(60, 2500);
+    let n = ctx.tier.pick(200, 2500);
     ctx.explore("real", "c13", case_strategy(), n, 200, |c, rep| check_case(ctx, c, rep));
 }
 
